@@ -301,7 +301,7 @@ func checkLeaves(r *hx.Run, id string, out []byte, want []leafWant, n, e, a int)
 }
 
 // the builder entry points a file's content can come through (bytex.FileSpec.Src)
-var fileSrcs = []string{"", "buf", "rs", "file", "tpl", "buf"}
+var fileSrcs = []string{"", "buf", "rs", "file", "tpl", "buf", "iofs"}
 
 func Run(r *hx.Run, replay []hx.Case) {
 	defer bytex.CleanTemp()
@@ -346,7 +346,7 @@ func Run(r *hx.Run, replay []hx.Case) {
 				}
 			}
 			// builder entry point: writer function or string
-			ps = append(ps, enc+":"+hx.Hex(content)+":"+[]string{"", "str"}[(ci/3+i)%2])
+			ps = append(ps, enc+":"+hx.Hex(content)+":"+[]string{"", "str", "set"}[(ci/3+i)%3])
 		}
 		for i := 0; i < e; i++ {
 			enc := []string{"", "base64", "8bit"}[(ci+i)%3]
